@@ -165,7 +165,7 @@ pub fn judge(c: &Case, o: &Result<Obs, String>) -> Option<(String, serde_json::V
 }
 
 pub fn run(cfg: &Cfg, rep: &mut Report) {
-  let total = cfg.n(150_000, 30_000_000);
+  let total = cfg.n(600_000, 30_000_000);
   let max_len = cfg.n(6, 10);
   let mut rng = Rng::new(cfg.seed ^ 0xC15);
   for i in 0..total {
@@ -216,7 +216,7 @@ pub fn run(cfg: &Cfg, rep: &mut Report) {
   }
 
   // thread part: terminating thread vs unsubscribing thread on finalize_threads (baton scheduler)
-  let n = cfg.n(6_000, 600_000);
+  let n = cfg.n(12_000, 600_000);
   super::thr::systematic_families(cfg, rep, 0xC15A, &[10, 10, 10], &|_, _| {}, &|o, _| super::thr::finalize_oracle(o));
   super::thr::campaign(cfg, rep, "thr", n, 0xC15F, &mut |r: &mut Rng| super::thr::random_scen(r, 10), &|o, _| super::thr::finalize_oracle(o));
 }
